@@ -53,7 +53,9 @@ ASSUMPTIONS = [
     'report); wallet transactions of replaced blocks stay, move or drop back to the mempool, they never vanish',
     'rows after a reorganisation are judged only at quiescence after every changed address was notified, the wallet '
     'holds exactly the hub headers, and the history re-sync of every address the transaction touches has completed '
-    '(stored history == hub history); a verified row must then belong to a transaction of the current block at its '
+    '(stored history == the TRUE history of the hub chain; a hub that misreports the height in its history so that '
+    'the entry equals the one stored before the reorganisation never triggers that re-sync); a verified row must '
+    'then belong to a transaction of the current block at its '
     'height (membership; a row whose transaction kept its height is not re-proven by the product)',
     'results of the cached path are judged strictly: the proof the object was accepted with must reproduce the '
     'root of the header held at its height at the time it is handed back',
@@ -524,7 +526,10 @@ def execute(scenario, keep_trace=False):
                 synced = True
                 for a in touched:
                     got = W.sql("select history from pubkey_address where address = ?", (a,))
-                    if not got or (got[0][0] or '') != hub.history_string(a):
+                    # against what the chain REALLY says: a hub that lies about the height in its history (so that
+                    # the reported entry coincides with the one the wallet stored before the reorganisation) never
+                    # gives the wallet a reason, or the data, to re-sync
+                    if not got or (got[0][0] or '') != hub.history_string(a, truthful=True):
                         synced = False
                 if touched and not synced:
                     run.probes['row_after_reorg_address_not_resynced'] += 1
